@@ -32,12 +32,67 @@ EXPLANATION += (' R-C04-6: in the multi-point path the representative sequence h
 EXPLANATION += (' R-C04-7: the junction of the two passes is handled by _new_turns: the kept sample tail starts exactly at the last turning point found (or at 0), is cut from the analysed array, and the global-index offset uses head and tail before they are updated (shared with R-C01-2).')
 EXPLANATION += (' R-C04-9 (shared with R-C05-14): no HCM decision is reduced over the assessment points with all()/any().')
 EXPLANATION += (' R-C04-8: the HCM case decisions use no relative tolerance (shared with R-C05-10), and nothing cached on the FKM-nonlinear recorder or detector survives a later recording call (memo rule: hand-written `if self._x is None` caches and caching decorators).')
+EXPLANATION += (' R-C04-10 (shared with R-C05-17): the representative assessment point of a multi-point sample is the first stored row everywhere; a first element taken after sort_index / sort_values / sample / reindex is a violation. R-C04-1 also rejects np.insert / np.append without a float conversion for the zero prefix (they keep a narrow or unsigned element type of the samples).')
 ASSUMPTIONS = ["the caller replays in pass 2 only loads of pass 1 (a fact about the caller's data)"]
 
 
 def run(ctx):
-    for r in (_r1, _r2, _r3, _r5, _r6, _r7, _r8, _r9):
+    for r in (_r1, _r2, _r3, _r5, _r6, _r7, _r8, _r9, _r10):
         ctx.attempt(r)
+
+
+SORTS = ("sort_index", "sort_values", "sample", "reindex", "nsmallest", "nlargest", "sortlevel")
+
+
+def sorted_representatives(fn_node):
+    """`<x>.sort_index().iloc[0]`, `.values[0]`, `.first()` ...: the first element AFTER a re-ordering is the element with the
+    smallest key, not the first stored row the sibling accessors take"""
+    out = []
+    for n in ast.walk(fn_node):
+        recv = None
+        if isinstance(n, ast.Subscript) and const_value(n.slice) == 0 and isinstance(n.value, ast.Attribute) and \
+                n.value.attr in ("iloc", "values", "iat", "array"):
+            recv = n.value.value
+        elif isinstance(n, ast.Call) and isinstance(n.func, ast.Attribute) and n.func.attr in ("first", "head") and not n.args:
+            recv = n.func.value
+        if recv is None:
+            continue
+        recv = inline_single_defs(fn_node, recv)
+        hit = [c for c in ast.walk(recv) if isinstance(c, ast.Call) and isinstance(c.func, ast.Attribute) and c.func.attr in SORTS]
+        if hit:
+            out.append((n, hit[0].func.attr))
+    return out
+
+
+def representative_rule(ctx, rule):
+    """The representative of a multi-point sample is the first STORED row, everywhere: the turning-point detection, the residual
+    points and the case analysis must look at the same assessment point, otherwise loads of two points with different load
+    factors are compared with each other."""
+    prog = ctx.prog
+    ctx.rule(rule, floor=1, what="the representative assessment point is the first stored row everywhere (never the first after a sort)")
+    ex = ast.parse("def f(self, cur):\n    a = cur.sort_index().iloc[0]\n    b = cur.iloc[0]\n    return a, b\n").body[0]
+    if len(sorted_representatives(ex)) != 1:
+        raise AnalysisError("%s built-in example not matched" % rule)
+    n = 0
+    m = 0
+    for key, fi in sorted(prog.functions.items()):
+        if fi.module.name != "pylife.stress.rainflow.fkm_nonlinear" or fi.parent is not None:
+            continue
+        n += 1
+        for node, op in sorted_representatives(fi.node):
+            m += 1
+            ctx.violated(fi, node, "%s: %s takes the first element after %s(): that is the assessment point with the smallest key, "
+                         "while the other accessors of the module take the first stored row - for rows that are not stored in "
+                         "ascending node order the case analysis compares loads of different points" %
+                         (fi.name, norm_text(node)[:60], op), text="sorted representative " + fi.name)
+    if n < 10:
+        raise AnalysisError("functions of the FKM nonlinear detector module not found")
+    if not m:
+        ctx.holds("pylife.stress.rainflow.fkm_nonlinear", None, "%d functions: no representative taken after a re-ordering" % n)
+
+
+def _r10(ctx):
+    representative_rule(ctx, "R-C04-10")
 
 
 def _r9(ctx):
@@ -142,6 +197,15 @@ def _r1(ctx, rule="R-C04-1"):
                 z[2][2] in (("c", 0), ("c", 0.0)):
             return True
         return False
+    # np.insert / np.append keep the element type of the array they extend; np.concatenate with the list [0] promotes narrow and
+    # unsigned integers.  With uint16 samples the differences of the look-ahead sequence wrap around in find_turns.
+    keeps = [c_ for c_ in calls_in(fa.node) if call_name(c_) in ("np.insert", "np.append") and c_.args and
+             not any(k_.arg == "dtype" for c2 in ast.walk(c_.args[0]) if isinstance(c2, ast.Call) for k_ in c2.keywords) and
+             not any(isinstance(c2, ast.Call) and isinstance(c2.func, ast.Attribute) and c2.func.attr == "astype" for c2 in ast.walk(c_.args[0]))]
+    for c_ in keeps:
+        ctx.violated(fa, c_, "%s keeps the element type of the caller's samples: for narrow or unsigned integer samples (uint16) the "
+                     "differences of the look-ahead sequence wrap around, the flush decision of pass 1 is wrong and the last "
+                     "reversal is counted in pass 2" % norm_text(c_)[:60], text="element type kept " + norm_text(c_)[:40])
     layouts = term_alternatives(S1)
     if len(layouts) >= 2 and all(zero_first(z) for z in layouts):
         ctx.holds(fa, fa.node, "a zero load is prepended (scalar and multi-point input)")
